@@ -125,6 +125,8 @@ func checkC11(p *Prog, r *Result, tier string) {
 	r.Rule("C11.R1", "both inclusions: the schema control has a loop over the directory set that can return ErrIndexCorrupted after looking the uuid up in the index, and a loop over the indexed uuids that can return ErrIndexCorrupted after looking it up in the directory set", 2)
 	r.Rule("C11.R2", "internal consistency first: the index-level control runs (and succeeds) before the directory is listed; it is a loop over all field indexes that consults the ordering test and the size comparison of each", 2)
 	r.Rule("C11.R6", "the schema control succeeds only through both inclusion loops: no path returns a nil error without having reached the directory-versus-index loop and the index-versus-directory loop (whatever the configuration predicates say)", 2)
+	r.Rule("C11.R9", "Repair leaves no cached copy of what it drops: with caching on, every successful return of Repair on a path that un-indexed an entry also evicted from the cache (the cache of the collection is dropped, or the entry's copy is deleted)", 1)
+	r.Rule("C11.R8", "the ordering test is complete: in its loop over the sorted list of a field index the positions read are induction variable + constant, the loop runs while `i < len(list) + constant`, and the two constants make the greatest position read the last one and the smallest the first", 1)
 	r.Rule("C11.R7", "only membership divergence is repairable: the index-level control (ordering and size of every field index) never reports an error of the ErrIndexCorrupted class, because the loader publishes a schema under that class and Repair can only add and drop entries", 1)
 	r.Rule("C11.R3", "a corrupted schema is still loaded: under errors.Is(err, ErrIndexCorrupted) the loader publishes the schema and returns it with the error; under any other error nothing is published", 2)
 	r.Rule("C11.R4", "Repair never truncates or removes an object file or the tree and writes object files only by flushing the pending (accepted, not yet written) objects through the pending store before it lists the directory, which it always does when asynchronous writes are on; it indexes unindexed files only after a successful read of the file (or, with caching on, of its cached copy) and through the accepting (constraint-checking) insertion; it un-indexes entries absent from disk; its successful return is preceded by the directory listing", 5)
@@ -301,7 +303,7 @@ func checkC11(p *Prog, r *Result, tier string) {
 		return &effListener{p: p, r: r, root: j.root, val: j.val, onEvent: func(l *effListener, x *Explorer, st *State, ev *Event) {
 			switch ev.Kind {
 			case EvCallRet:
-				if ev.Callee != nil && ev.Callee.Signature.Recv() != nil && named(ev.Callee.Signature.Recv().Type()) == a.ObjIndex && len(st.frames) == 1 {
+				if ev.Callee != nil && ev.Callee.Signature.Recv() != nil && named(ev.Callee.Signature.Recv().Type()) == a.ObjIndex && len(st.frames) <= 3 {
 					// a method of the object index returning only an error, proven nil later on this path
 					if len(ev.Results) == 1 && ev.Results[0].Nil != triNo {
 						st.User |= 1
@@ -420,6 +422,8 @@ func checkC11(p *Prog, r *Result, tier string) {
 		r.Report("C11.R2", "objIndex.control", "function", Undecided, "index-level control not found", "", nil, false)
 	}
 
+	checkOrderingVisitsAll(p, r, "C11.R8")
+
 	// R3
 	if ld := p.FuncByName("DB.loadSchema"); ld != nil {
 		vals := []Valuation{{IsCorrupted: triYes}, {IsCorrupted: triNo}}
@@ -461,7 +465,7 @@ func checkC11(p *Prog, r *Result, tier string) {
 	if rep := p.FuncByName("DB.Repair"); rep != nil {
 		var sawAccept, sawUnindex atomic.Bool
 		acquire := p.FuncByName("DB.schema")
-		exploreAll(p, c, jobsFor([]*ssa.Function{rep}, []Valuation{{Cache: triNo, Async: triNo}, {Cache: triYes, Async: triYes}}), effs(EOkObjRead, EFsReadDir, EOkAccept, ECallGetCache, EJsonDec, ECallFlushPend), r, func(j exploreJob) Listener {
+		exploreAll(p, c, jobsFor([]*ssa.Function{rep}, []Valuation{{Cache: triNo, Async: triNo}, {Cache: triYes, Async: triYes}}), effs(EOkObjRead, EFsReadDir, EOkAccept, ECallGetCache, EJsonDec, ECallFlushPend, ECallUnindex, EDelCache, ECallDelCache), r, func(j exploreJob) Listener {
 			return &effListener{p: p, r: r, root: j.root, val: j.val,
 				onEvent: func(l *effListener, x *Explorer, st *State, ev *Event) {
 					if ev.Kind != EvEffect {
@@ -532,6 +536,13 @@ func checkC11(p *Prog, r *Result, tier string) {
 				onReturn: func(l *effListener, x *Explorer, st *State, ret *ssa.Return, res []Fact) {
 					if e, _ := errResult(l.root, res); e == triNo {
 						return
+					}
+					if l.val.Cache == triYes && st.must.Has(ECallUnindex) {
+						if st.must.Has(EDelCache) || st.must.Has(ECallDelCache) {
+							l.ok("C11.R9", FuncName(rep), "a dropped entry leaves no cached copy behind", l.p.Pos(ret.Pos()))
+						} else {
+							l.bad("C11.R9", FuncName(rep), "a dropped entry leaves no cached copy behind", "with caching on, Repair drops the index entry of an object whose file is gone and returns successfully without evicting anything from the cache: Exist and Get keep answering from the cached copy of an object that is neither on disk nor indexed (Count and All do not see it), and the answers differ from those of an uncached collection", l.p.Pos(ret.Pos()), x, st, ret)
+						}
 					}
 					if st.must.Has(EFsReadDir) {
 						l.ok("C11.R4", FuncName(rep), "success only after listing the directory", l.p.Pos(ret.Pos()))
@@ -960,10 +971,15 @@ func directionSummary(p *Prog, f *ssa.Function, depth int, seen map[*ssa.Functio
 
 // checkFieldsNilGuard: stores to Schema.Fields outside constructors and decoders sit on the true edge of Fields == nil.
 func checkFieldsNilGuard(p *Prog, r *Result, rule string) {
+	checkFieldNilGuard(p, r, rule, p.A.SchFields, "Fields", "the descriptors of an existing schema value are (re)assigned without a preceding `Fields == nil` test: for a schema read from disk with a non-nil (possibly empty) descriptor map the stored shape is replaced by the current struct's and the structure check compares the struct with itself")
+}
+
+// checkFieldNilGuard: stores to the given Schema field outside constructors and decoders sit on the true edge of `field == nil`.
+func checkFieldNilGuard(p *Prog, r *Result, rule string, field *types.Var, fname, why string) {
 	a := p.A
 	n := 0
 	for _, fn := range p.Funcs {
-		if !inSod(p, fn) || fn.Name() == "UnmarshalJSON" {
+		if !inSod(p, fn) || decoderOf(fn) != nil {
 			continue
 		}
 		for _, b := range fn.Blocks {
@@ -976,7 +992,7 @@ func checkFieldsNilGuard(p *Prog, r *Result, rule string) {
 				if !ok {
 					continue
 				}
-				if nn, f, _ := fieldOf(fa); nn != a.Schema || f != a.SchFields {
+				if nn, f, _ := fieldOf(fa); nn != a.Schema || f != field {
 					continue
 				}
 				if _, fresh := fa.X.(*ssa.Alloc); fresh {
@@ -990,28 +1006,36 @@ func checkFieldsNilGuard(p *Prog, r *Result, rule string) {
 						continue
 					}
 					bo, ok := ifi.Cond.(*ssa.BinOp)
-					if !ok || bo.Op != token.EQL || !(d.Succs[0] == b || d.Succs[0].Dominates(b)) || len(d.Succs[0].Preds) != 1 {
+					if !ok || (bo.Op != token.EQL && bo.Op != token.NEQ) {
+						continue
+					}
+					// the edge on which the member is nil: true edge of ==, false edge of !=
+					e := d.Succs[0]
+					if bo.Op == token.NEQ {
+						e = d.Succs[1]
+					}
+					if !(e == b || e.Dominates(b)) || len(e.Preds) != 1 {
 						continue
 					}
 					for i, side := range []ssa.Value{bo.X, bo.Y} {
 						other := []ssa.Value{bo.Y, bo.X}[i]
 						if c, ok := other.(*ssa.Const); ok && c.IsNil() {
-							if _, f, _ := loadedField(side); f == a.SchFields {
+							if _, f, _ := loadedField(side); f == field {
 								guarded = true
 							}
 						}
 					}
 				}
 				if guarded {
-					r.Report(rule, FuncName(fn), "Fields assigned under Fields == nil", Discharged, "", p.Pos(in.Pos()), nil, true)
+					r.Report(rule, FuncName(fn), fname+" assigned under "+fname+" == nil", Discharged, "", p.Pos(in.Pos()), nil, true)
 				} else {
-					r.Report(rule, FuncName(fn), "Fields assigned under Fields == nil", Violated, "the descriptors of an existing schema value are (re)assigned without a preceding `Fields == nil` test: for a schema read from disk with a non-nil (possibly empty) descriptor map the stored shape is replaced by the current struct's and the structure check compares the struct with itself", p.Pos(in.Pos()), nil, true)
+					r.Report(rule, FuncName(fn), fname+" assigned under "+fname+" == nil", Violated, why, p.Pos(in.Pos()), nil, true)
 				}
 			}
 		}
 	}
 	if n == 0 {
-		r.Report(rule, "-", "no assignment of Fields to an existing schema", Discharged, "", "", nil, true)
+		r.Report(rule, "-", "no assignment of "+fname+" to an existing schema", Discharged, "", "", nil, true)
 	}
 }
 
